@@ -18,7 +18,7 @@ RULE = (
     "declared length; a rejected call with elements waiting behind the failing one followed by conforming calls; one array object at two annotated positions (the second conforming or violating its own annotation); judged by the oracle over the flattened entry list with display names p, p[1], ... non-trivial = distinct line "
     "with >=1 annotated tuple position"
 )
-RULE += " Also: plain positions holding sequences (a shape, (), tuples / lists of arrays) and spelled `int | str` / `int | None`; two offending elements (the earlier position is reported); tuple subclasses and lists as values."
+RULE += " Also: plain positions holding sequences (a shape, (), tuples / lists of arrays) and spelled `int | str` / `int | None`; two offending elements (the earlier position is reported); tuple subclasses and lists as values. Plain positions spelled with a NewType / TypeVar / LiteralString."
 ELEMS = [("FloatTensor,0,a 2", (3, 2), (3, 5), (4, 2)), ("IntTensor,0,a", (3,), None, (5,)), ("-", None, None, None)]
 
 
